@@ -71,6 +71,18 @@ func init() {
 		Quiet()
 		return RunBer(a[1], a[2])
 	}
+	Modes["life"] = func(a []string) error {
+		if len(a) != 3 {
+			return fmt.Errorf("life <prefix> <cases.json> <out.ndjson>")
+		}
+		return RunLife(a[0], a[1], a[2])
+	}
+	Modes["lifechild"] = func(a []string) error {
+		if len(a) != 4 {
+			return fmt.Errorf("lifechild <cgf> <answer> <traffic> <tag>")
+		}
+		return LifeChild(a[0], a[1], a[2], a[3])
+	}
 	Modes["cgf"] = func(a []string) error {
 		if len(a) != 3 {
 			return fmt.Errorf("cgf <prefix> <cases.json> <out.ndjson>")
